@@ -105,6 +105,45 @@ CHECKS['C15'] = (
  'tuple patterns, if/else, one-armed if, for, for-enumerate, while, with-as, comprehension, returns of every name and pass; '
  'accepted programs run on all 18 steering inputs (every branch outcome and trip count 0,1,2).',
  'Rejecting an acceptable program is not a violation; reads in dead code are not judged.', '§5 C15')
+CHECKS['C04'] = (
+ 'bounded exhaustive enumeration of expression trees per operator row, statement skeletons up to a size bound and call graphs, '
+ 'each run on an input pool under several caller contexts and compared with an independent reference evaluator written from the '
+ 'documentation over exact rationals',
+ 'Four layers: the operator table (267 depth-1 trees x all 289 operand pairs x 5 contexts), all depth<=2 expression trees over 73 '
+ 'operator rows, all statement skeletons of 1-3 (thorough 1-4) nodes with expression/context holes filled from pools and a 1/3 probe '
+ 'after every compound statement, and 243 call chains covering every combination of declared contexts and with-blocks; inputs are all '
+ 'values of a 4-bit float, zeros, infinities, NaN, 1/3, 1/10 and lists of length 0-3; the reference evaluator parses source text '
+ 'with Python''s ast and rounds through the shared rounding oracle.',
+ 'Where the documentation is silent the reference answers "unspecified" and the observation is skipped (about 2.6%); sign of an '
+ 'exactly-zero rounded result is left to C02; error types compared only where the reference names them.', '§5 C04')
+CHECKS['C13'] = (
+ 'bounded exhaustive enumeration of programs from four grammars (joins, value-class ladders, alias routes, sizes) x full input '
+ 'products; every analysis fact compared with values recorded per expression/definition by a tracing subclass of the real '
+ 'bytecode compiler, at every event of every execution',
+ 'Every program of the four families up to the size bound is analysed by TypeInfer, ArraySizeInfer, ValueClassInfer, PartialEval, '
+ 'DefineUse/ReachingDefs and Alias and executed on every input of the family pool (all branch outcomes, trip counts 0-2, every '
+ 'value class, equal and unequal list lengths); each reported fact is checked against the traced value (shape, length, class '
+ 'membership, constant value, the assignment that actually reached a read, object identity of lists).',
+ 'Executions in which an operation raises are not judged; alias facts only for lists produced by the documented routes; only the '
+ 'root activation is judged.', '§5 C13')
+CHECKS['C19'] = (
+ 'explicit-state breadth-first search over strategy histories (state = program + applied strategy sequence), every aimable '
+ 'strategy x every site index x None at each state, with a cursor on every original statement forwarded across every history',
+ 'Programs from 8 loop-nest skeletons with marker literals on every statement; at each state every aimable strategy is applied at '
+ 'every listed index, at the listed cursor, at out-of-range indices and at None; the reported edit log is checked against an '
+ 'independent replay model (only the selected sites rewritten, all and only listed sites for None, sites+refusals = independently '
+ 'enumerated candidates); cursors taken on every statement of the original are forwarded across every history of depth <= 2 '
+ '(thorough: 3 on small nests) and must resolve to the marker-carrying descendant or raise TransformReferenceError.',
+ 'Histories that change nothing are checked but not extended; within=/region where are not explored.', '§5 C19')
+CHECKS['C20'] = (
+ 'exhaustive enumeration of all operand pairs (scale-reduced triples) of small float formats x contexts x modes for every '
+ 'error-free transformation and decomposition, with exact rational identities and exactly evaluated preconditions',
+ 'All pairs of members over an exponent window (all finite members for bounded formats) of MPFloat p=2..6, MPSFloat, small IEEE, '
+ 'fixed-point contexts, under every mode a variant claims, for ideal/fast/classic/priest 2sum, ideal/classic/fast 2mul, ideal_fma, '
+ 'classic_2fma, veltkamp_split; split/modf/frexp/ldexp over every member, zeros, infinities, NaN; the identity s+t(+u) = a o b (+c) '
+ 'is checked in Fractions and s against the rounding oracle.',
+ 'Preconditions (nearest rounding, ordered magnitudes, minimum precision, headroom for error terms) evaluated exactly; '
+ 'precondition-false cells counted and not judged; dyadic operands only.', '§5 C20')
 PENDING = {}
 
 def main():
